@@ -29,10 +29,11 @@ class C16(RailsProp):
     level = "exploration"
     technique = "deterministic simulation of LLMRails with stub LLM/actions: option subsets x verdict vectors executed in the simulated world; the returned log and reply are compared with the simulator's ground-truth seam history and the documented table"
     rule = ("one run = one Colang 1.0 configuration (0-3 input/output rails), one subset of {input, dialog, retrieval, output} (all 16 subsets are cycled through by run index), a verdict vector "
-            "(allow/block/rewrite per rail), a supplied bot message when dialog is off, asked as a single call or as turn k of a conversation. "
+            "(allow/block/rewrite per rail), a supplied bot message when dialog is off, asked as a single call or as request k of a conversation whose earlier requests are normal turns or carry "
+            "option subsets and verdicts of their own (every optioned request is judged), continued through the message list or through the returned state object. "
             "non-trivial = runs with a proper subset selected and at least one rail configured in a category; distinct = distinct (mode, subset, rail kinds, verdict vector, position)")
     assumptions = ["no schedule/fault dimension exists for this property; the simulator only supplies ground truth (seam history) and determinism"]
-    expected_probes = ["input_only", "input_output_with_bot_message", "output_only", "blocked_with_stop_flag", "rewritten", "as_later_turn"]
+    expected_probes = ["input_only", "input_output_with_bot_message", "output_only", "blocked_with_stop_flag", "rewritten", "as_later_turn", "after_earlier_optioned_request"]
     exhaustive_parts = ["all 16 subsets of the four categories (cycled by run index)"]
     quick_runs = 640
     thorough_runs = 60000
@@ -44,65 +45,100 @@ class C16(RailsProp):
         sc["subset"] = subsets[index % 16]
         sc["prior_turns"] = d.weighted([(0, 3), (1, 2), (2, 1)], "prior")
         sc["bot_tok_text"] = "LLM[x%s] generated answer" % sc["convs"][0]["turns"][0]["tok"]
+        # earlier requests of the same conversation may carry options of their own (any subset) and meet verdicts of
+        # their own: a flag or context value left behind by a request that ran with one subset must not change what
+        # runs in a later request with another subset.  The conversation is continued the two ways the API offers:
+        # the message list (events cache of the instance) or the returned state object.
+        sc["continuity"] = d.choice(["messages", "state"], "cont")
+        plan = []
+        for k in range(sc["prior_turns"]):
+            tk = "#c0t%d#" % (k + 5)
+            if d.chance(0.6, "popt", k):
+                sub = subsets[d.randint(0, 15, "psub", k)]
+                for side in ("in", "out"):
+                    for i, r in enumerate(sc["%s_rails" % side]):
+                        v = d.weighted([("allow", 5), ("block", 3)] + ([("rewrite", 2)] if r["kind"] != "shipped" else []), "pverdict", side, i, k)
+                        if r["kind"] == "rewrite_assign" and v == "block":
+                            v = "rewrite"
+                        if v != "allow":
+                            sc["verdicts"].setdefault("%s%d" % (side, i), {})[tk] = v
+                plan.append({"subset": sub})
+            else:
+                plan.append({"subset": None})
+        sc["prior_plan"] = plan
         return sc
 
     def execute(self, sc):
         out = Outcome()
         tr = Trace(sc.get("run_seed"))
-        S = set(sc["subset"])
-        turn = sc["convs"][0]["turns"][0]
-        tok = turn["tok"]
-        user_text = turn["text"]
-        supplied = None
-        if "dialog" not in S:
-            supplied = sc["bot_tok_text"]
-            if S - {"retrieval"} == {"output"}:
-                user_text = ""
-        # conversation: prior normal turns, then the optioned request
+        final_turn = sc["convs"][0]["turns"][0]
         spec = copy.deepcopy(sc)
-        prior = []
-        for k in range(sc.get("prior_turns", 0)):
-            tk = "#c0t%d#" % (k + 5)
-            prior.append({"tok": tk, "text": "topic %d earlier %s" % (k, tk)})
-            spec["intents"][tk] = "free"
-        spec["convs"] = [{"turns": prior + [{"tok": tok, "text": user_text, "final": True}]}]
-
-        def options_fn(c, t):
-            if t == len(prior):
-                return {"rails": sorted(S), "log": {"activated_rails": True}}
-            return None
-
-        # run_conversations appends the user message; the supplied bot message is added through a hook
-        world, records = _run_with_supplied(spec, options_fn, supplied, len(prior), tr)
-        cc = cfgclass(sc) + ":" + ("+".join(sorted(S)) or "none")
-        rec = records[-1]
-        out.evaluations = 1
+        plan = sc["prior_plan"] if "prior_plan" in sc else [{"subset": None}] * sc.get("prior_turns", 0)
+        turns, per_turn = [], []
+        for k, pl in enumerate(list(plan) + [{"subset": sc["subset"], "final": True}]):
+            if pl.get("final"):
+                tk, text = final_turn["tok"], final_turn["text"]
+            else:
+                tk = "#c0t%d#" % (k + 5)
+                text = "topic %d earlier %s" % (k, tk)
+                spec["intents"][tk] = "free"
+            S = None if pl["subset"] is None else set(pl["subset"])
+            supplied = None
+            if S is not None and "dialog" not in S:
+                supplied = "LLM[x%s] generated answer" % tk
+                if S - {"retrieval"} == {"output"}:
+                    text = ""
+            turns.append({"tok": tk, "text": text})
+            per_turn.append((S, text, supplied))
+        spec["convs"] = [{"turns": turns}]
+        continuity = sc.get("continuity", "messages")
+        world, records = _run_plan(spec, per_turn, continuity, tr)
+        out.evaluations = len(records)
         out.sim_seconds = getattr(world, "sim_seconds", 0.0)
-        if len(prior):
+        if len(plan):
             out.probe("as_later_turn")
-        if rec.status != "ok":
-            out.inconclusive = "generate raised %s" % type(rec.exc).__name__
-            tr.log("exc", repr(rec.exc))
-            out.digest = tr.digest()
-            return out
+        if any(S is not None for S, _, _ in per_turn[:-1]):
+            out.probe("after_earlier_optioned_request")
+        for t, rec in enumerate(records):
+            S, user_text, supplied = per_turn[t]
+            if rec.status != "ok":
+                out.inconclusive = "generate raised %s" % type(rec.exc).__name__
+                tr.log("exc", repr(rec.exc))
+                break
+            if S is None:
+                continue
+            self._judge(sc, spec, S, user_text, supplied, rec, t, len(records) - 1, continuity, out, tr)
+        out.digest = tr.digest()
+        rec = records[-1]
+        S, user_text, supplied = per_turn[-1]
+        ev = RR.normalise_events(spec, rec.events)
+        out.interleaving = (cfgclass(sc), tuple(sorted(S)), tuple((e["kind"], e.get("rail") or e.get("task") or e.get("name")) for e in ev))
+        out.sample = {"mode": sc["mode"], "continuity": continuity, "requests": [{"options.rails": None if s_ is None else sorted(s_), "user": u_, "bot_message": b_} for s_, u_, b_ in per_turn],
+                      "in_rails": sc["in_rails"], "out_rails": sc["out_rails"], "verdicts": sc["verdicts"],
+                      "replies": [r.reply if isinstance(r.reply, str) else repr(r.reply)[:100] for r in records],
+                      "seam_last": [(e["kind"], e.get("rail") or e.get("task") or e.get("name"), e.get("verdict")) for e in ev]}
+        return out
+
+    def _judge(self, sc, spec, S, user_text, supplied, rec, t, last, continuity, out, tr):
+        pos = "" if t == last else ":earlier-request"
+        cc = cfgclass(sc) + ":" + ("+".join(sorted(S)) or "none") + pos
         ev = RR.normalise_events(spec, rec.events)
         in_inv = [e for e in ev if e["kind"] == "rail" and e["rail"].startswith("in")]
         out_inv = [e for e in ev if e["kind"] == "rail" and e["rail"].startswith("out")]
         gens = [e for e in ev if e["kind"] == "gen"]
-        reply_text = rec.reply if isinstance(rec.reply, str) else ""
         # 1. exactly the selected categories ran
         if "input" not in S and in_inv:
-            out.violate("unselected-category-ran", cc + ":input", "input rails %r ran although 'input' was not selected" % [e["rail"] for e in in_inv])
+            out.violate("unselected-category-ran", cc + ":input", "request %d: input rails %r ran although 'input' was not selected" % (t, [e["rail"] for e in in_inv]))
         if "output" not in S and out_inv:
-            out.violate("unselected-category-ran", cc + ":output", "output rails %r ran although 'output' was not selected" % [e["rail"] for e in out_inv])
+            out.violate("unselected-category-ran", cc + ":output", "request %d: output rails %r ran although 'output' was not selected" % (t, [e["rail"] for e in out_inv]))
         if "dialog" not in S and gens:
-            out.violate("llm-generation-with-dialog-off", cc, "LLM task(s) %r were prompted although 'dialog' was not selected" % [g["task"] for g in gens])
+            out.violate("llm-generation-with-dialog-off", cc, "request %d: LLM task(s) %r were prompted although 'dialog' was not selected" % (t, [g["task"] for g in gens]))
         in_block = None
         in_final = user_text
         if "input" in S and sc["in_rails"]:
             exp_seq, in_block, in_final = RR.expected_chain(spec, "in", user_text)
             if [(e["rail"], e["text"]) for e in in_inv] != exp_seq:
-                out.violate("selected-category-incomplete", cc + ":input", "input rails invoked %r, expected %r" % ([(e["rail"], e["text"]) for e in in_inv], exp_seq))
+                out.violate("selected-category-incomplete", cc + ":input", "request %d: input rails invoked %r, expected %r" % (t, [(e["rail"], e["text"]) for e in in_inv], exp_seq))
         # 2. the documented replies (dialog off)
         fam = S - {"retrieval"}
         expected_reply = None
@@ -115,7 +151,8 @@ class C16(RailsProp):
                     exp_seq, out_block, out_final = RR.expected_chain(spec, "out", supplied)
                     got = [(e["rail"], e["text"]) for e in out_inv]
                     if got[:len(exp_seq)] != exp_seq:
-                        out.violate("selected-category-incomplete", cc + ":output", "output rails invoked %r on the supplied bot message, expected %r" % (got, exp_seq))
+                        out.violate("selected-category-incomplete", cc + ":output", "request %d (%s continuity, earlier requests: %s): output rails invoked %r on the supplied bot message, expected %r"
+                                    % (t, continuity, _plan_brief(sc), got, exp_seq))
                     expected_reply = ("block", out_block) if out_block else ("text", out_final)
                 else:
                     expected_reply = ("text", supplied)
@@ -134,11 +171,13 @@ class C16(RailsProp):
                         out.probe("rewritten")
                     if not (rec.reply_role == "assistant" and rec.reply == val):
                         out.violate("documented-reply", cc + ":" + ("rewritten" if val not in (user_text, supplied) else "unchanged"),
-                                    "options rails=%r, user %r, bot message %r: reply is %r (%s), documented: %r" % (sorted(S), user_text, supplied, rec.reply, rec.reply_role, val))
+                                    "request %d (%s continuity, earlier requests: %s): options rails=%r, user %r, bot message %r: reply is %r (%s), documented: %r"
+                                    % (t, continuity, _plan_brief(sc), sorted(S), user_text, supplied, rec.reply, rec.reply_role, val))
                 else:
                     blockers = [e["rail"] for e in ev if e["kind"] == "rail" and e.get("verdict") == "block"] or [val]
                     if not any(RR.reply_is_block_of(spec, rec, b) for b in blockers):
-                        out.violate("documented-reply", cc + ":refusal", "options rails=%r: rail %s rejected but the reply is %r (%s)" % (sorted(S), val, rec.reply, rec.reply_role))
+                        out.violate("documented-reply", cc + ":refusal", "request %d (%s continuity, earlier requests: %s): options rails=%r: rail %s rejected but the reply is %r (%s)"
+                                    % (t, continuity, _plan_brief(sc), sorted(S), val, rec.reply, rec.reply_role))
         # 3. the log lists the rails that actually ran, stop on exactly the rail that blocked
         log = getattr(rec.full, "log", None) if getattr(rec, "full", None) is not None else None
         if log is not None and log.activated_rails is not None:
@@ -149,28 +188,28 @@ class C16(RailsProp):
                     typ = "input" if e["rail"].startswith("in") else "output"
                     truth.append((typ, flow_name(spec, e["rail"]), e.get("verdict") == "block"))
             if [(a, b) for a, b, _ in listed] != [(a, b) for a, b, _ in truth]:
-                out.violate("log-lists-wrong-rails", cc, "log.activated_rails lists %r; the rail actions really invoked were %r" % ([(a, b) for a, b, _ in listed], [(a, b) for a, b, _ in truth]))
+                out.violate("log-lists-wrong-rails", cc, "request %d: log.activated_rails lists %r; the rail actions really invoked were %r" % (t, [(a, b) for a, b, _ in listed], [(a, b) for a, b, _ in truth]))
             elif [s for _, _, s in listed] != [s for _, _, s in truth]:
-                out.violate("log-stop-flag", cc + (":exceptions" if sc.get("exceptions") else ""), "log.activated_rails stop flags %r; the rails that really rejected: %r" % (listed, truth))
+                out.violate("log-stop-flag", cc + (":exceptions" if sc.get("exceptions") else ""), "request %d: log.activated_rails stop flags %r; the rails that really rejected: %r" % (t, listed, truth))
             if any(s for _, _, s in truth):
                 out.probe("blocked_with_stop_flag")
         else:
-            out.violate("log-missing", cc, "no activated_rails log returned")
+            out.violate("log-missing", cc, "request %d: no activated_rails log returned" % t)
         if S != set(CATS) and (sc["in_rails"] or sc["out_rails"]):
-            out.nontrivial_sigs.append((cc, tuple(r["kind"] for r in sc["in_rails"]), tuple(r["kind"] for r in sc["out_rails"]), tuple(sorted((k, tuple(sorted(v.items()))) for k, v in sc["verdicts"].items())), len(prior), bool(sc.get("exceptions"))))
-        tr.log("result", rec.reply_role, rec.reply if isinstance(rec.reply, str) else repr(rec.reply)[:80], [(e["kind"], e.get("rail") or e.get("task") or e.get("name")) for e in ev])
-        out.digest = tr.digest()
-        out.interleaving = (cc, tuple((e["kind"], e.get("rail") or e.get("task") or e.get("name")) for e in ev))
-        out.sample = {"mode": sc["mode"], "options.rails": sorted(S), "in_rails": sc["in_rails"], "out_rails": sc["out_rails"], "verdicts": sc["verdicts"], "user": user_text, "bot_message": supplied,
-                      "reply": rec.reply if isinstance(rec.reply, str) else repr(rec.reply)[:100], "seam": [(e["kind"], e.get("rail") or e.get("task") or e.get("name"), e.get("verdict")) for e in ev]}
-        return out
+            out.nontrivial_sigs.append((cc, tuple(r["kind"] for r in sc["in_rails"]), tuple(r["kind"] for r in sc["out_rails"]), tuple(sorted((k, tuple(sorted(v.items()))) for k, v in sc["verdicts"].items())), t, continuity, bool(sc.get("exceptions"))))
+        tr.log("result", t, rec.reply_role, rec.reply if isinstance(rec.reply, str) else repr(rec.reply)[:80], [(e["kind"], e.get("rail") or e.get("task") or e.get("name")) for e in ev])
 
-    ddmin_paths = [("in_rails",), ("out_rails",), ("subset",)]
+    ddmin_paths = [("in_rails",), ("out_rails",), ("subset",), ("prior_plan",)]
 
 
-def _run_with_supplied(spec, options_fn, supplied, final_idx, tr):
-    """Like rails_run.run_conversations, but the final request may carry a supplied assistant message
-    and the full GenerationResponse is kept on the record."""
+def _plan_brief(sc):
+    return [None if p["subset"] is None else "+".join(p["subset"]) or "none" for p in sc.get("prior_plan", [])]
+
+
+def _run_plan(spec, per_turn, continuity, tr):
+    """Serve the requests of one conversation; request t carries options rails=S_t (or none) and, when dialog is off,
+    a supplied assistant message.  continuity "messages": the growing message list (the instance's events cache links
+    the requests); "state": every request passes the state object the previous one returned and only its new messages."""
     import asyncio
 
     from ..kernel import seams
@@ -193,14 +232,19 @@ def _run_with_supplied(spec, options_fn, supplied, final_idx, tr):
         async def main(loop):
             holder["loop"] = loop
             msgs = []
+            state = {}
             for t, turn in enumerate(spec["convs"][0]["turns"]):
+                S, user_text, supplied = per_turn[t]
                 rec = RR.TurnRecord(0, t, turn["tok"], turn["text"])
                 h0 = len(world.history)
-                msgs.append({"role": "user", "content": turn["text"]})
-                req = list(msgs)
-                if t == final_idx and supplied is not None:
-                    req.append({"role": "assistant", "content": supplied})
-                st, res = await world.generate("c0", messages=req, options=options_fn(0, t))
+                new = [{"role": "user", "content": turn["text"]}]
+                if supplied is not None:
+                    new.append({"role": "assistant", "content": supplied})
+                opts = {"rails": sorted(S), "log": {"activated_rails": True}} if S is not None else None
+                if continuity == "state":
+                    st, res = await world.generate("c0", messages=new, options=opts, state=state)
+                else:
+                    st, res = await world.generate("c0", messages=msgs + new, options=opts)
                 rec.events = [e for e in world.history[h0:] if e["kind"] != "request"]
                 rec.status = st
                 rec.full = None
@@ -209,15 +253,19 @@ def _run_with_supplied(spec, options_fn, supplied, final_idx, tr):
                     if hasattr(res, "response"):
                         rec.full = res
                         msg = res.response[0] if isinstance(res.response, list) else {"role": "assistant", "content": res.response}
+                        if continuity == "state" and getattr(res, "state", None) is not None:
+                            state = res.state
                     rec.raw = msg
                     rec.reply_role = msg.get("role")
                     rec.reply = msg.get("content")
+                    msgs.append({"role": "user", "content": turn["text"]})
                     if msg.get("role") == "assistant":
                         msgs.append({"role": "assistant", "content": msg.get("content")})
                 else:
                     rec.exc = res
-                    msgs.pop()
                 records.append(rec)
+                if tr is not None:
+                    tr.log("turn", t, st, rec.reply_role)
             return loop.time()
 
         t_end, loop = run_sim(main, start_time=1000.0, max_iterations=400000)
